@@ -100,6 +100,7 @@ Cons == [lazy    |-> [mode |-> "L3",  dem0 |-> 0],
          filter  |-> [mode |-> "L3",  dem0 |-> 0],
          concat  |-> [mode |-> "L3",  dem0 |-> 0],
          take    |-> [mode |-> "L2",  dem0 |-> 0],
+         map2    |-> [mode |-> "L2",  dem0 |-> 0],      \* (map f short long): 2-element src, longer lazy b
          drop    |-> [mode |-> "L3",  dem0 |-> 0],
          iterate |-> [mode |-> "inf", dem0 |-> 0],
          pyseq   |-> [mode |-> "L3",  dem0 |-> 0],
@@ -111,6 +112,8 @@ Need(con, d) ==
                            f |-> IF d = 0 THEN 0 ELSE IF d <= 3 THEN KthKept(d, 1) ELSE 5]
     [] con = "concat"  -> [src |-> Min(d, 3), b |-> Max(0, d - 2)]
     [] con = "take"    -> [src |-> Min(d, 2)]
+    \* the shorter first collection ends the result: once it is exhausted the longer one is not asked again
+    [] con = "map2"    -> [src |-> Min(d, 3), b |-> Min(d, 2), f |-> Min(d, 2)]
     [] con = "drop"    -> [src |-> IF d = 0 THEN 0 ELSE d + 1]
     [] con = "iterate" -> [f |-> Max(0, d - 1)]
     [] con \in {"pyseq", "pyseq1"} -> [src |-> d]
